@@ -545,13 +545,11 @@ pub fn check_bin_array(idx: usize, name: &str, op: B) {
     core::mem::forget((ops, a, b, s, r1, r2, r3));
 }
 
-/// dot, cross, component, length on arrays of length 0..=3
-pub fn check_vector_ops() {
+/// dot product on arrays of length 0..=3
+pub fn check_dot() {
     let ops = ValOpsFactory::<i32, f64>::make();
-    assert!(ops[IDX_BIN_DOT].repr() == "dot" && ops[IDX_BIN_CROSS].repr() == "cross" && ops[IDX_BIN_COMP].repr() == ".");
+    assert!(ops[IDX_BIN_DOT].repr() == "dot");
     let dot = ops[IDX_BIN_DOT].bin().unwrap().apply;
-    let cross = ops[IDX_BIN_CROSS].bin().unwrap().apply;
-    let comp = ops[IDX_BIN_COMP].bin().unwrap().apply;
     let la: usize = kani::any();
     let lb: usize = kani::any();
     kani::assume(la <= 3 && lb <= 3);
@@ -560,7 +558,7 @@ pub fn check_vector_ops() {
     let (Val::Array(av), Val::Array(bv)) = (&a, &b) else { unreachable!() };
     let d = dot(dup(&a), dup(&b));
     if la != lb {
-        assert!(is_err(&d));
+        assert!(is_err(&d), "result violates the documented typing/error rule");
     } else {
         let mut acc = 0.0;
         let mut i = 0;
@@ -568,29 +566,43 @@ pub fn check_vector_ops() {
             acc = acc + av[i] * bv[i];
             i += 1;
         }
-        assert!(same(&d, &Val::Float(acc)));
+        assert!(same(&d, &Val::Float(acc)), "result violates the documented typing/error rule");
     }
+    assert!(is_err(&dot(dup(&a), Val::Error(ExError::new("e")))), "error operand must give an error result");
+    kani::cover!(la == 2 && lb == 2, "two 2-vectors reached");
+    core::mem::forget((ops, a, b, d));
+}
+
+/// cross product and component access
+pub fn check_cross_comp() {
+    let ops = ValOpsFactory::<i32, f64>::make();
+    assert!(ops[IDX_BIN_CROSS].repr() == "cross" && ops[IDX_BIN_COMP].repr() == ".");
+    let cross = ops[IDX_BIN_CROSS].bin().unwrap().apply;
+    let comp = ops[IDX_BIN_COMP].bin().unwrap().apply;
+    let la: usize = kani::any();
+    kani::assume(la >= 2 && la <= 3);
+    let a = arr(la);
+    let b = arr(3);
+    let (Val::Array(av), Val::Array(bv)) = (&a, &b) else { unreachable!() };
     let c = cross(dup(&a), dup(&b));
-    if la == 3 && lb == 3 {
+    if la == 3 {
         let expect: V = Val::Array(smallvec![av[1] * bv[2] - av[2] * bv[1], av[2] * bv[0] - av[0] * bv[2], av[0] * bv[1] - av[1] * bv[0]]);
-        assert!(same(&c, &expect));
+        assert!(same(&c, &expect), "result violates the documented typing/error rule");
     } else {
-        assert!(is_err(&c));
+        assert!(is_err(&c), "result violates the documented typing/error rule");
     }
     let i: i32 = kani::any();
     let e = comp(dup(&a), Val::Int(i));
     if i >= 0 && (i as usize) < la {
-        assert!(same(&e, &Val::Float(av[i as usize])));
+        assert!(same(&e, &Val::Float(av[i as usize])), "result violates the documented typing/error rule");
     } else {
-        assert!(is_err(&e));
+        assert!(is_err(&e), "result violates the documented typing/error rule");
     }
-    // wrong kinds and errors
-    assert!(is_err(&comp(dup(&a), Val::Float(kani::any()))));
-    assert!(is_err(&dot(dup(&a), Val::Error(ExError::new("e")))));
-    assert!(is_err(&cross(Val::Error(ExError::new("e")), dup(&b))));
-    kani::cover!(la == 3 && lb == 3, "cross product of two 3-vectors reached");
+    assert!(is_err(&comp(dup(&a), Val::Float(kani::any()))), "result violates the documented typing/error rule");
+    assert!(is_err(&cross(Val::Error(ExError::new("e")), dup(&b))), "error operand must give an error result");
+    kani::cover!(la == 3, "cross product of two 3-vectors reached");
     kani::cover!(la == 2 && i == 1, "valid component reached");
-    core::mem::forget((ops, a, b, d, c, e));
+    core::mem::forget((ops, a, b, c, e));
 }
 
 include!("cells_gen.rs");
